@@ -42,6 +42,7 @@ def run(ctx):
     _r1(ctx)
     _r2(ctx)
     _r3_r4(ctx)
+    _r4_bases(ctx)
     _r5_r6(ctx)
     exact_label_rule(ctx)
 
@@ -301,6 +302,43 @@ def _r3_r4(ctx):
             okk = bool(lens) and any(cfg.dominates(lens[0], l) and cfg.dominates(l, bb) for l in lab)
             ctx.check(okk, "R4", "offset-taken-before-label-written", ctx.where(b, s["sp"]), "pointers then point backwards to the label")
         ctx.floor("R4", "suffix-tree node constructions", n, 2)
+
+
+def _r4_bases(ctx):
+    """record-data names are compressed against offsets relative to the final message: the base handed to the name writer is
+    exactly `current output length + 2` (the RDLENGTH octets) for names written into the per-record scratch buffer — the writer adds
+    the scratch buffer's own length itself — and 0 for names written straight into the output"""
+    from ..affine import affine
+    P = ctx.P
+    enc = [f for f in P.bodies if f.endswith("dns::dnspkt::push_rr")]
+    for f in enc:
+        b = P.bodies[f]
+        T = terms(P, b)
+        n = 0
+        for bb, tm in b.calls():
+            if not (callee_name(tm) or "").endswith("dnspkt::push_compressed_domain"):
+                continue
+            n += 1
+            recv = borrowed_place(T, tm["args"][0], bb, len(b.blocks[bb]["stmts"]))
+            to_out = recv is not None and recv[0] == 1
+            base = norm(T.call_args(bb)[3])
+
+            def is_len_out(x):
+                if x[0] == "call" and str(x[1]).endswith("Vec::<T, A>::len"):
+                    a = norm(x[2][0])
+                    return a == ("param", 1)
+                return False
+            a = affine(base, lambda x: x[0] == "call" and str(x[1]).endswith("::len"))
+            if to_out:
+                good = a is not None and not a[0] and a[1] == 0
+                want = "0"
+            else:
+                good = a is not None and a[1] == 2 and len(a[0]) == 1 and list(a[0].values()) == [1] and is_len_out(list(a[0])[0])
+                want = "len(output) + 2"
+            ctx.check(good, "R4", "rdata-name-base=%s" % ("ok" if good else "wrong") + (":scratch" if not to_out else ":output"), ctx.where(b, tm["sp"]),
+                      "the offset base for this name must be %s (the name writer adds the length of the buffer it writes into); it is %s — a wrong base "
+                      "records the name's labels at the wrong message offset and a later name compressed against them decodes to garbage" % (want, show(base)[:80]))
+        ctx.floor("R4", "names written by the record encoder", n, 9)
 
 
 def _r5_r6(ctx):
